@@ -165,11 +165,10 @@ def run_driver(lines, shards=NCPU, timeout=7200):
     """lines: list[str] (without newline). Returns list[str] answers, same order."""
     if not lines:
         return []
-    shards = max(1, min(shards, (len(lines) + 999) // 1000))
-    chunk = (len(lines) + shards - 1) // shards
+    shards = max(1, min(shards, (len(lines) + 199) // 200))
     procs = []
     for i in range(shards):
-        part = lines[i * chunk:(i + 1) * chunk]
+        part = lines[i::shards]      # round-robin so that expensive cases spread over the shards
         if not part:
             continue
         p = subprocess.Popen(["bash", "-c", f"ulimit -s unlimited 2>/dev/null; exec {DRIVER}"], stdin=subprocess.PIPE,
@@ -190,11 +189,11 @@ def run_driver(lines, shards=NCPU, timeout=7200):
         t.start()
     for t in ths:
         t.join()
-    res = []
-    for o, e, rc, n in outs:
+    res = [None] * len(lines)
+    for k, (o, e, rc, n) in enumerate(outs):
         if rc != 0 or len(o) != n:
             o = o + [f"DRIVER-CRASH rc={rc} {e.strip()[-200:]}"] * (n - len(o))
-        res += o[:n]
+        res[k::len(outs)] = o[:n]
     return res
 
 
